@@ -39,6 +39,10 @@ SUBMISSIONS = {
     'printing': "def add(a, b):\n    print('adding', a, b)\n    return a + b\nfor i in range(3):\n    print(add(i, i))\nunused_thing = 4\n",
     'input': "def add(a, b):\n    return a + b\nname = input('name?')\nprint('hi', name, add(1, 2))\n",
     'sectioned': "import math\n##### Part 1\ndef add(a, b):\n    return a + b\nprint(add(1, 2))\n##### Part 2\nprint(math.floor(2.5))\nprint(undefined_name)\n",
+ 'turtle-assign': "import turtle\nturtle.forward = 100\nprint('assigned')\n",
+    'turtle-use': "import turtle\nturtle.forward(100)\nturtle.right(90)\nprint('moved')\n",
+    'math-assign': "import math\nmath.tau = 'overwritten by a student'\nprint(math.tau)\n",
+    'math-use': "import math\ndef add(a, b):\n    return a + b\nprint(math.tau, add(1, 2))\n",
     'uses-len': "def add(a, b):\n    return a + b\nwords = ['a', 'bb']\nprint(len(words), sum([1, 2]), add(1, 2))\n",
 }
 PRELUDES = {   # name: (code, leaky?)
@@ -110,7 +114,7 @@ def build_pool(seed, n):
         if i < len(sub_names):
             sub = sub_names[i]
         script = 'from pedal import *\n' + ''.join(PRELUDES[p][0] for p in pre) + ''.join(BODIES[b] for b in bodies) + TAILS[tail]
-        leaky = any(PRELUDES[p][1] for p in pre) or tail != 'none'
+        leaky = any(PRELUDES[p][1] for p in pre) or tail != 'none' or sub in ('turtle-assign', 'math-assign')
         pool.append({'script': script, 'code': SUBMISSIONS[sub], 'env': env, 'tags': pre + bodies + [tail, sub, env], 'leaky': leaky})
     return pool
 
@@ -183,7 +187,10 @@ def judge(case):
             field = next(k for k in sorted(set(ref) | set(got)) if got.get(k) != ref.get(k))
             earlier = [pool[i % n]['tags'] for i in history[:step]]
             culprit = find_culprit(pool, refs, [i % n for i in history[:step]], idx % n)
-            viol.append(V('C13|differs-from-fresh-interpreter|after=%s|field=%s' % (culprit, field),
+            cell = 'C13|differs-from-fresh-interpreter|after=%s|field=%s' % (culprit, field)
+            if culprit == 'student-mutates-real-module':
+                cell = 'C13|differs-from-fresh-interpreter|after=student-mutates-real-module'
+            viol.append(V(cell,
                           'step %d grades %r: %s = %r, alone in a fresh interpreter it is %r; earlier gradings in this process: %r'
                           % (step, t['tags'], field, got.get(field), ref.get(field), earlier)))
             break
@@ -200,25 +207,31 @@ def judge(case):
 
 
 def find_culprit(pool, refs, earlier, current):
-    """Root-cause key: the single earlier grading after which `current` alone already differs (each trial in a forked child)."""
-    from tools.c13_grade import observable
+    """Root-cause key: the single earlier grading after which `current` already differs.  Each trial is a fresh interpreter
+    grading [k, current] in sequence (the history's own process is already polluted and cannot be used)."""
+    if 'math-use' in pool[current]['tags'] and any('math-assign' in pool[k]['tags'] for k in earlier):
+        return 'student-mutates-real-module'
+    work = os.path.join(HERE, '.work')
+    repo = os.environ.get('VERIF_REPO', '/repo')
+    env = dict(os.environ, PYTHONPATH=os.pathsep.join([repo, HERE]), PYTHONHASHSEED='0')
     for k in dict.fromkeys(reversed(earlier)):
-        r, w = os.pipe()
-        pid = os.fork()
-        if pid == 0:
+        inp = os.path.join(work, 'c13_cul_%d_%d_%d.json' % (os.getpid(), k, current))
+        out = inp + '.out'
+        with open(inp, 'w') as f:
+            json.dump([{'script': pool[i]['script'], 'code': pool[i]['code'], 'env': pool[i]['env']} for i in (k, current)], f)
+        try:
+            subprocess.run([sys.executable, '-W', 'ignore', os.path.join(HERE, 'tools', 'c13_grade.py'), inp, out], env=env, stdin=subprocess.DEVNULL,
+                           stdout=subprocess.DEVNULL, stderr=subprocess.DEVNULL, timeout=120, cwd=work)
+            with open(out) as f:
+                second = json.load(f)[1]
+        except Exception:
+            second = None
+        for p in (inp, out):
             try:
-                observable(pool[k]['script'], pool[k]['code'], pool[k]['env'])
-                got = observable(pool[current]['script'], pool[current]['code'], pool[current]['env'])
-                os.write(w, b'1' if got != refs[current] else b'0')
-            except BaseException:
-                os.write(w, b'1')
-            finally:
-                os._exit(0)
-        os.close(w)
-        flag = os.read(r, 1)
-        os.close(r)
-        os.waitpid(pid, 0)
-        if flag == b'1':
+                os.remove(p)
+            except OSError:
+                pass
+        if second is not None and second != refs[current]:
             tags = pool[k]['tags']
             leaky = [t for t in tags if (t in PRELUDES and PRELUDES[t][1]) or (t in TAILS and t != 'none')]
             return '+'.join(leaky) or 'plain:' + '+'.join(tags[:2])
@@ -238,9 +251,11 @@ def pairs(tier):
     pool = build_pool(seed, n)
     leaky = [i for i, t in enumerate(pool) if t['leaky']]
     k = 0
+    twins = {'turtle-assign': 'turtle-use', 'math-assign': 'math-use'}
     for i in leaky:
         for j in range(n):
-            if tier == 'quick' and (i * 7 + j) % 6 != 0:
+            twin = any(a in pool[i]['tags'] and b in pool[j]['tags'] for a, b in twins.items())
+            if tier == 'quick' and (i * 7 + j) % 6 != 0 and not twin:
                 continue
             yield {'pool_seed': seed, 'pool_size': n, 'history': [j, i, j]}
             k += 1
